@@ -97,6 +97,9 @@ pub(crate) mod verif_probe {
                 prepared_statement_cache: cache,
                 registering_prepared_statement: reg,
             };
+            // (code that spells out the representation of the cancel map is compiled out in the minimal probe build, which is used
+            // when the tree under test changed that representation)
+            #[cfg(not(verif_probe_minimal))]
             if let Some(entries) = pre.get("client_map").and_then(|x| x.as_array()) {
                 let mut g = csmap.lock();
                 for e in entries {
@@ -128,8 +131,9 @@ pub(crate) mod verif_probe {
                         }
                         json!({"relayed": hex(&all), "err": res, "calls": n})
                     }
-                    "send" => match server.send(&BytesMut::from(&unhex(step["hex"].as_str().unwrap())[..])).await {
-                        Ok(()) => json!({"ok": true}), Err(e) => json!({"err": format!("{:?}", e)}) },
+                    "send" => match tokio::time::timeout(std::time::Duration::from_secs(2), server.send(&BytesMut::from(&unhex(step["hex"].as_str().unwrap())[..]))).await {
+                        Ok(Ok(())) => json!({"ok": true}), Ok(Err(e)) => json!({"err": format!("{:?}", e)}),
+                        Err(_) => json!({"blocked": true}) },
                     "query" => match server.query(step["sql"].as_str().unwrap()).await {
                         Ok(()) => json!({"ok": true}), Err(e) => json!({"err": format!("{:?}", e)}) },
                     "checkin_cleanup" => match server.checkin_cleanup().await {
@@ -159,7 +163,10 @@ pub(crate) mod verif_probe {
                 Some(c) => json!(c.iter().map(|(k, _)| k.clone()).collect::<Vec<String>>()),   // most-recent first
                 None => Value::Null,
             };
+            #[cfg(not(verif_probe_minimal))]
             let mut cmap: Vec<Value> = csmap.lock().iter().map(|(k, val)| json!([k.0, k.1, val.0, val.1, val.2, val.3])).collect();
+            #[cfg(verif_probe_minimal)]
+            let mut cmap: Vec<Value> = vec![];
             cmap.sort_by_key(|x| x.to_string());
             let fin = json!({
                 "in_transaction": server.in_transaction, "data_available": server.data_available, "in_copy_mode": server.in_copy_mode,
@@ -183,9 +190,70 @@ pub(crate) mod verif_probe {
         res
     }
 
+    /// Servers claim themselves for clients (Server::claim), then a CancelRequest (Client::cancel + Client::handle) is looked up:
+    /// which listeners receive which (pid, key)?  Nothing here depends on how the cancel map represents its keys.
+    pub(crate) fn cancel_roundtrip(v: &Value) -> Value {
+        let rt = tokio::runtime::Builder::new_multi_thread().worker_threads(2).enable_all().build().unwrap();
+        let v = v.clone();
+        rt.block_on(async move {
+            let csmap: ClientServerMap = Arc::new(Mutex::new(HashMap::new()));
+            let mut acceptors = vec![];
+            let mut servers = vec![];
+            for (i, c) in v["claims"].as_array().unwrap().iter().enumerate() {
+                let l = tokio::net::TcpListener::bind("127.0.0.1:0").await.unwrap();
+                let port = l.local_addr().unwrap().port();
+                // a socket for the Server object itself (never used)
+                let dummy = std::net::TcpListener::bind("127.0.0.1:0").unwrap();
+                let stream = TcpStream::connect(("127.0.0.1", dummy.local_addr().unwrap().port())).await.unwrap();
+                let mut server = Server {
+                    address: Address { host: "127.0.0.1".to_string(), port, ..Address::default() },
+                    stream: BufStream::new(StreamInner::Plain { stream }),
+                    buffer: BytesMut::new(), server_parameters: ServerParameters::new(),
+                    process_id: 5000 + i as i32, secret_key: 6000 + i as i32,
+                    in_transaction: false, data_available: false, in_copy_mode: false, bad: true,
+                    cleanup_state: CleanupState { needs_cleanup_set: false, needs_cleanup_prepare: false },
+                    client_server_map: csmap.clone(), connected_at: chrono::offset::Utc::now().naive_utc(),
+                    stats: Arc::new(ServerStats::default()), application_name: "app".to_string(), last_activity: SystemTime::now(),
+                    mirror_manager: None, addr_set: None, cleanup_connections: true, log_client_parameter_status_changes: false,
+                    prepared_statement_cache: None, registering_prepared_statement: VecDeque::new(),
+                };
+                server.claim(c[0].as_i64().unwrap() as i32, c[1].as_i64().unwrap() as i32);
+                servers.push((server, dummy));
+                acceptors.push(tokio::spawn(async move {
+                    let mut got = vec![];
+                    loop {
+                        match tokio::time::timeout(std::time::Duration::from_millis(400), l.accept()).await {
+                            Ok(Ok((mut s, _))) => {
+                                let mut buf = [0u8; 16];
+                                if tokio::io::AsyncReadExt::read_exact(&mut s, &mut buf).await.is_ok() {
+                                    got.push(json!([i32::from_be_bytes([buf[8], buf[9], buf[10], buf[11]]), i32::from_be_bytes([buf[12], buf[13], buf[14], buf[15]])]));
+                                }
+                            }
+                            _ => break,
+                        }
+                    }
+                    got
+                }));
+            }
+            let (tx, rx) = tokio::sync::broadcast::channel::<()>(1);
+            let (_client_end, pgcat_end) = tokio::io::duplex(4096);
+            let (read, write) = tokio::io::split(pgcat_end);
+            let mut bytes = BytesMut::new();
+            bytes.put_i32(v["request"][0].as_i64().unwrap() as i32);
+            bytes.put_i32(v["request"][1].as_i64().unwrap() as i32);
+            let mut client = crate::client::Client::cancel(read, write, "127.0.0.1:1".parse().unwrap(), bytes, csmap.clone(), rx).await.unwrap();
+            let _keep = tx;
+            let r = client.handle().await;
+            let mut cancels = vec![];
+            for a in acceptors { cancels.extend(a.await.unwrap()); }
+            json!({"result": format!("{:?}", r), "cancels": cancels})
+        })
+    }
+
     pub(crate) fn handle(op: &str, v: &Value) -> Option<Value> {
         match op {
             "server_script" => Some(run_script(v)),
+            "cancel_roundtrip" => Some(cancel_roundtrip(v)),
             _ => None,
         }
     }
